@@ -144,6 +144,29 @@ pub fn validate_p<const ID: u32, T: ToModel>(t: T, loc: ValuePointerRef) -> Resu
     }
 }
 
+/// the probe ids 9500..9600 belong to `validate_rec_p` (hand-written types only; generated ids start far above)
+pub fn is_own_error_validate(id: u32) -> bool {
+    (9500..9600).contains(&id)
+}
+
+/// A `validate` function whose error type is the container's own (recording) error type: there is no foreign
+/// error type in between, the function itself asks the error type to record the failure, and the derived code
+/// must still hand that error over at the container's location.
+pub fn validate_rec_p<const ID: u32, T: ToModel>(t: T, loc: ValuePointerRef) -> Result<T, crate::rec::Rec<0>> {
+    let m = t.to_model();
+    let fails = validate_fails(&m);
+    trace::push(Event::UserFn { id: ID, role: "validate", arg: m, loc: Some(path_from_ref(loc)), ok: !fails });
+    if fails {
+        Err(deserr::take_cf_content(<crate::rec::Rec<0> as deserr::DeserializeError>::error::<std::convert::Infallible>(
+            None,
+            deserr::ErrorKind::Unexpected { msg: format!("validate#{ID} rejected the value") },
+            loc,
+        )))
+    } else {
+        Ok(t)
+    }
+}
+
 pub fn missing_p<const ID: u32>(key: &str, loc: ValuePointerRef) -> ProbeErr {
     ProbeErr(ProbeData::Missing { id: ID, key: key.to_string(), loc: path_from_ref(loc) })
 }
